@@ -168,9 +168,15 @@ func (c *chain) list(ctx sdk.Context, u *universe, f filter, ps int, pm string) 
 			res.OK, res.Err = false, fmt.Sprintf("panic: %v", r)
 		}
 	}()
-	h := c.app.GRPCQueryRouter().Route(queryPath)
+	h := c.route
+	if h == nil {
+		h = c.app.GRPCQueryRouter().Route(queryPath)
+	}
 	if h == nil {
 		panic("no gRPC query route " + queryPath)
+	}
+	if c.route != nil {
+		res.Via = "abci"
 	}
 	var key []byte
 	for n := 0; ; n++ {
